@@ -58,12 +58,13 @@ SIZES = {
             'thorough': {'s1': 9000, 'm': 6, 's2': 1000, 'sweep': 12}},
     'C12': {'quick': {'s1': 240, 'm': 2, 's3': 160}, 'thorough': {'s1': 6000, 'm': 3, 's3': 6000}},
     'C09': {'quick': {'s1': 320, 'm': 4, 's2': 120, 'sweep': 0, 'midsweep': 0},
-            'thorough': {'s1': 8000, 'm': 8, 's2': 3000, 'sweep': 48, 'midsweep': 12}},
+            'thorough': {'s1': 8000, 'm': 8, 's2': 3000, 'sweep': 48, 'midsweep': 12,
+                         's2sweep': 16}},
     'C13': {'quick': {'s3': 700}, 'thorough': {'s3enum': 40, 's3': 4000}},
     'C19': {'quick': {'s4': 600, 's1': 120, 'm': 2, 'vanish': 80, 's3': 60},
             'thorough': {'s4enum': 400, 's4': 20000, 's1': 3000, 'm': 3, 'vanish': 2000,
                          's3': 2000}},
-    'C20': {'quick': {'s2': 500}, 'thorough': {'s2': 12000, 's2enum': 40}},
+    'C20': {'quick': {'s2': 500}, 'thorough': {'s2': 12000, 's2enum': 40, 's2sweep': 32}},
 }
 
 
@@ -113,6 +114,8 @@ def selftest_tasks(prop, seed, n):
                     t['type'] = 's2'
                 if t['type'] == 's4enum':
                     t['type'] = 's4'
+                if t['type'] == 's2sweep':
+                    t['type'] = 's2'
                 out.append({'type': 'digest', 'inner': t})
         i += 1
     return out
@@ -132,6 +135,9 @@ def run_task(task):
     if t in ('s2', 's2enum'):
         from scenarios import admission
         return admission.run_task(task)
+    if t == 's2sweep':
+        from scenarios import admission
+        return admission.run_sweep(task)
     if t in ('s3', 's3enum'):
         from scenarios import abort
         return abort.run_task(task)
